@@ -91,6 +91,8 @@ type Contract struct {
 	AbstractCallees []string
 	PathLimit     int
 	ImplOf        string // this method implements the contract of an interface method (checked against it)
+	ImplContract  *Contract
+	ParamAliases  map[string]int
 }
 
 type SpecFunc struct {
@@ -619,6 +621,8 @@ func parseModifies(rest string) ([]ModEntry, bool, error) {
 		case item == "" || item == "nothing":
 		case item == "*":
 			all = true
+		case strings.HasPrefix(item, "db(") && strings.HasSuffix(item, ")"):
+			out = append(out, ModEntry{Kind: "db", Field: strings.TrimSpace(item[3 : len(item)-1]), Src: item})
 		case strings.HasPrefix(item, "bt(") && strings.HasSuffix(item, ")"):
 			x, err := parseSpec(item[3 : len(item)-1])
 			if err != nil {
@@ -817,6 +821,9 @@ func (w *World) loadContracts(verifDir string) error {
 			w.contractFiles = append(w.contractFiles, fn)
 		}
 	}
+	if err := w.resolveImplements(); err != nil {
+		return err
+	}
 	specs, _ := filepath.Glob(filepath.Join(verifDir, "contracts", "*.spec"))
 	sort.Strings(specs)
 	for _, sp := range specs {
@@ -825,4 +832,62 @@ func (w *World) loadContracts(verifDir string) error {
 		}
 	}
 	return nil
+}
+
+// "implements <Interface>": the method is verified against the contract of the interface method of the same name
+// (its requires / ensures / modifies / lets are prepended); parameters correspond by position.
+func (w *World) resolveImplements() error {
+	for _, k := range sortedKeys(w.contracts) {
+		c := w.contracts[k]
+		if c.ImplOf == "" {
+			continue
+		}
+		tf, isIface := w.lookupMethod(c.Pkg, c.ImplOf, c.TFn.Name())
+		if tf == nil || !isIface {
+			return fmt.Errorf("%s:%d: implements %s: no such interface method %s", c.File, c.Line, c.ImplOf, c.TFn.Name())
+		}
+		ic := w.contracts["invoke "+tf.FullName()]
+		if ic == nil {
+			return fmt.Errorf("%s:%d: implements %s: the interface method %s has no contract", c.File, c.Line, c.ImplOf, tf.FullName())
+		}
+		c.ImplContract = ic
+		c.Requires = append(append([]Clause{}, ic.Requires...), renumber(c.Requires, len(ic.Requires))...)
+		c.Ensures = append(append([]Clause{}, ic.Ensures...), renumber(c.Ensures, len(ic.Ensures))...)
+		c.Modifies = append(append([]ModEntry{}, ic.Modifies...), c.Modifies...)
+		c.ModAll = c.ModAll || ic.ModAll
+		c.HasModifies = c.HasModifies || ic.HasModifies
+		c.Lets = append(append(c.Lets[:0:0], ic.Lets...), c.Lets...)
+		c.Checked = c.Checked || ic.Checked
+		for _, t := range ic.Tags {
+			if !hasTag(c.Tags, t) {
+				c.Tags = append(c.Tags, t)
+			}
+		}
+		// positional parameter aliases: interface names for the implementation's parameters
+		c.ParamAliases = map[string]int{}
+		off := 0
+		if c.Sig.Recv() != nil {
+			off = 1
+		}
+		ioff := 0
+		if ic.Sig.Recv() != nil {
+			ioff = 1
+		}
+		for i := ioff; i < len(ic.Params); i++ {
+			j := i - ioff + off
+			if j < len(c.Params) && ic.Params[i] != c.Params[j] {
+				c.ParamAliases[ic.Params[i]] = j
+			}
+		}
+	}
+	return nil
+}
+
+func renumber(cs []Clause, base int) []Clause {
+	out := make([]Clause, len(cs))
+	for i, c := range cs {
+		c.Ord = base + i
+		out[i] = c
+	}
+	return out
 }
